@@ -57,6 +57,11 @@ pub struct Conn {
     pub state: InitState,
     pub cap: u8,
     pub bufcap: u16,
+    /// Capacity of the pipe towards the server (0 = unbounded): with a few
+    /// octets only, the server sees the client's queries arrive in pieces, as
+    /// from a slow router, and a notification can fall between the pieces.
+    #[serde(default)]
+    pub upcap: u8,
 }
 
 #[derive(Clone, Debug, Serialize, Deserialize)]
@@ -133,7 +138,10 @@ struct Summary {
 }
 
 async fn connect(tx: &UnboundedSender<Result<MemEnd, io::Error>>, conn: &Conn) -> Result<Live, Fail> {
-    let (s_end, c_end, ctl) = rtrsim::mem_pair(usize::MAX, (conn.bufcap as usize).max(16));
+    // (only together with an unbounded pipe towards the client: two peers that each block on a
+    // full pipe while writing deadlock by construction, whatever the code does)
+    let up = if conn.upcap == 0 || conn.bufcap != u16::MAX { usize::MAX } else { conn.upcap as usize };
+    let (s_end, c_end, ctl) = rtrsim::mem_pair(up, (conn.bufcap as usize).max(16));
     tx.send(Ok(s_end)).map_err(|_| Fail::new("server listener gone"))?;
     rtrsim::settle(&ctl, SETTLE_TURNS).await.map_err(Fail::new)?;
     let sock = CapSock::new(c_end, conn.cap);
@@ -417,8 +425,9 @@ fn conn_strategy() -> BoxedStrategy<Conn> {
         ],
         prop_oneof![6 => Just(2u8), 2 => Just(1u8), 2 => Just(0u8)],
         prop_oneof![1 => 16u16..64, 2 => 64u16..1024, 3 => Just(u16::MAX)],
+        prop_oneof![5 => Just(0u8), 2 => 1u8..8, 1 => 8u8..20],
     )
-        .prop_map(|(initial_version, state, cap, bufcap)| Conn { initial_version, state, cap, bufcap })
+        .prop_map(|(initial_version, state, cap, bufcap, upcap)| Conn { initial_version, state, cap, bufcap, upcap })
         .boxed()
 }
 
